@@ -834,3 +834,26 @@ package cache
 //@   ensures [a-successful-pull-has-merged] result == nil ==> mergeRuns == old(mergeRuns) + 1
 //@   loop 1
 //@     invariant mergeRuns == old(mergeRuns) + 1
+
+// The selected user identity of a cache (C18): its id is read under muUserIdentity and written only with that lock
+// write-held - the web UI asks for it on every request while a command may set or clear it.
+//@ guarded RepoCache.userIdentityId by RepoCache.muUserIdentity
+//@ func (*RepoCache).SetUserIdentity
+//@ func (*RepoCache).GetUserIdentity
+//@ func (*RepoCache).GetUserIdentityExcerpt
+//@   props C18
+//@   opt locks
+//@   opt assume_pre=(*Identity).Id
+//@   stable all(RepoCache.identities), all(RepoCacheIdentity.SubCache)
+//@   requires [not-held@locks] c != nil && sync.rwheld[&c.muUserIdentity] == 0 && c.identities != nil && c.identities.SubCache != nil && sync.rwheld[&c.identities.SubCache.mu] == 0
+//@   ensures [lock-balanced] forall m *sync.RWMutex :: { sync.rwheld[m] } sync.rwheld[m] == old(sync.rwheld[m])
+
+// Registering a repository with the multi-repository cache (C19): it is listed - and later closed, which gives its lock
+// back - only when its opening reported no error; every event of the opening is passed on.
+//@ func (*MultiRepoCache).RegisterRepository$1
+//@   props C19
+//@   assert at `c.repos[name] = r` [registered-only-after-a-clean-open] forall k int :: { recvat(events, k) } 0 <= k && k < recvcount(events) ==> recvat(events, k).Err == nil
+//@   check [every-event-passed-on] sentcount(out) == recvcount(events)
+//@   loop 1
+//@     invariant forall k int :: { recvat(events, k) } 0 <= k && k < recvcount(events) ==> recvat(events, k).Err == nil
+//@     invariant sentcount(out) == recvcount(events)
